@@ -285,6 +285,10 @@ func runRouting(qIndex, inflow, lateral, initialFluxMax, storage, area, netEvapR
 	}
 	//SIndex = SIndex - outflow
 
+	// With no outflow the reach holds the water that is actually there, which
+	// can be less than the index storage (e.g. below dead storage).
+	SIndex = math.Min(SIndex, newStorage)
+
 	// if corrected {
 	// 	fmt.Printf("massBalance after correction = %f, SIndex=%f, outflow=%f\n", massBalance, SIndex, outflow)
 	// }
